@@ -357,15 +357,66 @@ Proof.
     + apply IH; auto.
 Qed.
 
+(* a request refused only because of explicit nulls: the content with those nulls is refused by peers too *)
+Lemma value_ok_null t : value_ok t JNull = false.
+Proof. destruct t; reflexivity. Qed.
+
+Lemma forced_value_cases f l :
+  forced_value f l = local_value f l \/
+  (f_nullable (lf f) = false /\ forced_value f l = Some (Some JNull) /\ local_value f l = None).
+Proof.
+  destruct l as [[| | |b js|]|]; try (left; reflexivity).
+  unfold forced_value, local_value. destruct (f_nullable (lf f)); [left; reflexivity|right; auto].
+Qed.
+
+Lemma field_ok_tl_same k v j' (tl : list lfield) :
+  ~ In k (map short_of tl) ->
+  forallb (field_ok ((k, v) :: j')) (map lf tl) = forallb (field_ok j') (map lf tl).
+Proof.
+  intros Hnot. apply forallb_ext_in'. intros g Hg. unfold field_ok. rewrite jget_cons_other; [reflexivity|].
+  intros Heq. apply Hnot. apply in_map_iff in Hg. destruct Hg as [g' [<- Hg']].
+  apply in_map_iff. exists g'. split; [unfold short_of; congruence|assumption].
+Qed.
+
+Lemma forced_refused lits : forall fs j,
+  NoDup (map short_of fs) ->
+  forced_store fs lits = Some j -> local_store fs lits = None ->
+  forallb (field_ok j) (map lf fs) = false.
+Proof.
+  induction fs as [|f tl IH]; intros j Hnd Hf Hl; [discriminate|].
+  simpl in Hf, Hl. inversion Hnd as [|? ? Hnot Hnd']; subst.
+  destruct (forced_value_cases f (lget lits (f_short (lf f)))) as [E|[Hnn [E El]]].
+  - rewrite E in Hf. destruct (local_value f (lget lits (f_short (lf f)))) as [[w|]|]; [| |discriminate].
+    + destruct (forced_store tl lits) as [j'|] eqn:Fs; [|discriminate].
+      destruct (local_store tl lits) as [jl|] eqn:Ls; [discriminate|].
+      pose proof (IH j' Hnd' eq_refl eq_refl) as IH'. inversion Hf; subst j. simpl.
+      rewrite field_ok_tl_same; [|exact Hnot]. rewrite IH'. apply andb_false_r.
+    + destruct (forced_store tl lits) as [j'|] eqn:Fs; [|discriminate].
+      destruct (local_store tl lits) as [jl|] eqn:Ls; [discriminate|].
+      pose proof (IH j' Hnd' eq_refl eq_refl) as IH'. inversion Hf; subst j. simpl.
+      rewrite IH'. apply andb_false_r.
+  - rewrite E in Hf. destruct (forced_store tl lits) as [j'|]; [|discriminate]. inversion Hf; subst. simpl.
+    unfold field_ok at 1. rewrite jget_cons_same, Hnn, value_ok_null. reflexivity.
+Qed.
+
 Theorem json_agree fs lits :
   NoDup (map short_of fs) ->
   forallb (fun f => lit_clean f (lget lits (short_of f))) fs = true ->
   forallb default_typed fs = true ->
   violations12 (CJson fs lits) (run_C12 (CJson fs lits)) = [].
 Proof.
-  intros Hnd Hc Hd. unfold run_C12. destruct (local_store fs lits) as [j|] eqn:Hs; [|reflexivity].
-  unfold conform. rewrite (local_store_conform lits fs j Hnd Hc Hd Hs). reflexivity.
+  intros Hnd Hc Hd. unfold run_C12. destruct (local_store fs lits) as [j|] eqn:Hs.
+  - unfold conform. rewrite (local_store_conform lits fs j Hnd Hc Hd Hs). reflexivity.
+  - destruct (forced_store fs lits) as [j|] eqn:Hf; [|reflexivity].
+    unfold conform. rewrite (forced_refused lits fs j Hnd Hf Hs). reflexivity.
 Qed.
+
+(* the refusal direction needs no hypothesis on literals or defaults: whatever request the local parser
+   refuses only for its explicit nulls, peers refuse its content too *)
+Theorem json_null_refusal_agrees fs lits j :
+  NoDup (map short_of fs) ->
+  local_store fs lits = None -> forced_store fs lits = Some j -> conform (map lf fs) (Some j) = false.
+Proof. intros Hnd Hl Hf. unfold conform. apply (forced_refused lits fs j Hnd Hf Hl). Qed.
 
 (* ------------------------------------------------------------------ closed witnesses *)
 Local Open Scope N_scope.
